@@ -594,6 +594,11 @@ class Parser():
             label_name = label.value[2:-2]
             return StatLabel(label_name, start=pos, end=self._pos)
 
+        # (As of Lua 5.2, break is an ordinary statement and need not be
+        # the last statement of a block.)
+        if self._accept(lexer.TokKeyword(b'break')) is not None:
+            return StatBreak(start=pos, end=self._pos)
+
         self._pos = pos
         return None
 
